@@ -192,9 +192,16 @@ func c02Check(e *core.Env, r *core.Rand, d *gen.Out, today ref.Date, nowCase boo
 		if len(d.Text)%2 == 0 {
 			bcfg = cfgWithDefaultBookmark(e) // piped text takes precedence over a default bookmark
 		}
+		how := "cat FILE | klog "
+		if core.Hash64("c02-devstdin", d.Text)%3 == 0 {
+			// the same text as a FILE argument that is not a regular file (a pipe: what `klog total <(...)` or a FIFO hands over)
+			args = append(args, "/dev/stdin")
+			how = "cat FILE | klog [FILE argument /dev/stdin, a pipe] "
+			e.Count("cases_read_from_a_pipe_given_as_file_argument", 1)
+		}
 		b := obs.RunBin(obs.BinEnv{Bin: e.KlogBin, ConfigDir: bcfg, Clock: &clock, Stdin: []byte(d.Text)}, args...)
 		if b.Err == nil {
-			w["how"] = "cat FILE | klog " + strings.Join(args, " ")
+			w["how"] = how + strings.Join(args, " ")
 			if obs.LooksLikeGoCrash(b.Stdout+b.Stderr) || b.Code != 0 {
 				e.Violation("total-fails", fmt.Sprintf("real binary, text on standard input: exit status %d\n%s", b.Code, trunc(b.Stderr+b.Stdout, 500)), w)
 				return
